@@ -2,6 +2,7 @@
 use vcommon::Args;
 
 mod c01;
+mod c01x;
 mod c02;
 mod c03;
 mod c04;
@@ -27,6 +28,7 @@ fn main() {
     let args = Args::parse();
     match args.stage.as_str() {
         "c01" => c01::run(&args),
+        "c01_examples" => c01x::run(&args),
         "c02" => c02::run(&args),
         "c03" => c03::run(&args),
         "c04" => c04::run(&args),
